@@ -156,6 +156,22 @@ func runC07(c *fw.Ctx, idx int) fw.Result {
 		res.Fail("error-on-valid-input", "closest.ClosestN returned an error: "+err.Error(), files, argv)
 		return res
 	}
+	if idx%15 == 11 {
+		bigD := idx%2 == 0
+		binSample(c, &res, idx, "closest", map[string]string{"query.fasta": qText, "target.fasta": tText}, func(p func(string) string) []string {
+			a := []string{"closest", "--query", p("query.fasta"), "--target", p("target.fasta"), "-n", fmt.Sprint(len(ts)), "--table"}
+			if measure != "raw" || idx%4 < 2 {
+				a = append(a, "-m", measure) // raw is the documented default and may be left out
+			}
+			if bigD {
+				a = append(a, "-d", "1000") // every distance is within 1000: same output
+			}
+			if threads != 0 {
+				a = append(a, "-t", fmt.Sprint(threads))
+			}
+			return a
+		}, nil, "", out)
+	}
 	tab, _, ok := parseTable(out)
 	if !ok {
 		res.Fail("table-format", "closest --table output is not query,target,distance rows", files, argv)
